@@ -6,6 +6,8 @@ from .c01 import FUNCS
 
 
 def run(chk):
+    from .common import per_instance_state_of_modules
+    per_instance_state_of_modules(chk, "C10.classes.state_is_per_instance", ['state', 'concurrency.executor'])   # no object created in a class body: instances share no mutable state through the class
     chk.assume("U/C08: registered parent links are tree shaped (a child id is strictly deeper than its parent: ids encode their path)")
     chk.assume("G: the block under _parent_done_lock is one atomic action")
     state_contracts.mark_orphans(chk, "C10")
